@@ -249,7 +249,13 @@ class CSSRuleRules(CSSRule):
         # Under Python 2.x this was basestring but ...
         if isinstance(rule, string_type):
             tempsheet = css_parser.css.CSSStyleSheet()
-            tempsheet.cssText = rule
+            sheet = self.parentStyleSheet
+            if sheet is not None:
+                # selectors are bound to the namespaces of the sheet this
+                # rule belongs to (as CSSStyleSheet.insertRule does)
+                tempsheet.cssText = (rule, sheet._namespaces)
+            else:
+                tempsheet.cssText = rule
             if len(tempsheet.cssRules) != 1 or (tempsheet.cssRules and
                                                 not isinstance(tempsheet.cssRules[0], css_parser.css.CSSRule)):
                 self._log.error('%s: Invalid Rule: %s' % (self.__class__.__name__,
